@@ -120,3 +120,58 @@ pub fn e2e() -> i32 {
     });
     0
 }
+
+pub fn e2e2() -> i32 {
+    use arrow_array::builder::{Int32Builder, ListBuilder};
+    use arrow_array::types::Int32Type;
+    use arrow_array::*;
+    use arrow_schema::{Field, Schema};
+    use futures::TryStreamExt;
+    use lance::dataset::WriteParams;
+    use lance::Dataset;
+    use lance_encoding::version::LanceFileVersion;
+    use std::sync::Arc;
+    let rt = tokio::runtime::Builder::new_multi_thread().enable_all().build().unwrap();
+    let mut cols: Vec<(&str, ArrayRef)> = vec![];
+    cols.push(("l1 [null, []]", Arc::new(ListArray::from_iter_primitive::<Int32Type, _, _>(vec![None, Some(Vec::<Option<i32>>::new())]))));
+    cols.push(("l1 [[], [], null]", Arc::new(ListArray::from_iter_primitive::<Int32Type, _, _>(vec![Some(vec![]), Some(Vec::<Option<i32>>::new()), None]))));
+    let mk = |spec: &[Option<Vec<Option<Vec<i32>>>>]| -> ArrayRef {
+        let mut b = ListBuilder::new(ListBuilder::new(Int32Builder::new()));
+        for row in spec {
+            match row {
+                None => b.append(false),
+                Some(inner) => {
+                    for il in inner {
+                        match il {
+                            None => b.values().append(false),
+                            Some(v) => { for x in v { b.values().values().append_value(*x); } b.values().append(true); }
+                        }
+                    }
+                    b.append(true);
+                }
+            }
+        }
+        Arc::new(b.finish())
+    };
+    cols.push(("l2 [[[],null],null,[]]", mk(&[Some(vec![Some(vec![]), None]), None, Some(vec![])])));
+    cols.push(("l2 [[[],null],null,[[1]]]", mk(&[Some(vec![Some(vec![]), None]), None, Some(vec![Some(vec![1])])])));
+    cols.push(("l2 [[[]],[]]", mk(&[Some(vec![Some(vec![])]), Some(vec![])])));
+    cols.push(("l2 [[null],[]]", mk(&[Some(vec![None]), Some(vec![])])));
+    cols.push(("l2 [[],[[]]]", mk(&[Some(vec![]), Some(vec![Some(vec![])])])));
+    cols.push(("l2 [null,[[]]]", mk(&[None, Some(vec![Some(vec![])])])));
+    rt.block_on(async {
+        for (name, col) in cols {
+            let schema = Arc::new(Schema::new(vec![Field::new("c", col.data_type().clone(), true)]));
+            let b = RecordBatch::try_new(schema.clone(), vec![col.clone()]).unwrap();
+            let dir = tempfile::tempdir().unwrap();
+            let params = WriteParams { data_storage_version: Some(LanceFileVersion::V2_1), ..Default::default() };
+            let r = tokio::spawn(async move {
+                let ds = Dataset::write(RecordBatchIterator::new(vec![Ok(b)], schema.clone()), dir.path().to_str().unwrap(), Some(params)).await.unwrap();
+                let got: Vec<RecordBatch> = ds.scan().try_into_stream().await.unwrap().try_collect().await.unwrap();
+                got.iter().map(|g| format!("{:?}", g.column(0))).collect::<Vec<_>>().join(" | ").replace("\n", " ")
+            }).await;
+            println!("{name}: {:?}", r.map(|s| s.chars().take(260).collect::<String>()));
+        }
+    });
+    0
+}
